@@ -137,8 +137,8 @@ namespace BitSerializer::Detail
 		}
 		else if (mStartDataPtr != mBuffer)
 		{
-			// Squeeze buffer
-			std::memcpy(mBuffer, mStartDataPtr, mEndDataPtr - mStartDataPtr);
+			// Squeeze buffer (ranges can overlap)
+			std::memmove(mBuffer, mStartDataPtr, mEndDataPtr - mStartDataPtr);
 			mEndDataPtr -= mStartDataPtr - mBuffer;
 			mStartDataPtr = mBuffer;
 		}
